@@ -13,7 +13,39 @@ SM_RULE = ("random seat-manager histories (2..10 seats, default/short-deck/unsup
            "every operation is replayed through the Lean model and the resulting full state compared; a history is non-trivial "
            "when it contains at least one InitPositions/RotatePositions call; distinct = distinct operation sequences (FNV-64 of the trace text)")
 
+TB_RULE = ("random table histories on the real table engine with a synthetic hand backend (arbitrary chip-conserving results incl. busts and split pots): "
+           "2..10 seats, CT/cash/MTT, arrivals by fixed/random seat and batch, late joins, re-buys, add-ons (also during hands), departures, blind updates, "
+           "malformed membership calls, up to 8 hands; every operation and internal event (gate fire, settlement, continue) is replayed through the Lean TB model "
+           "and the full observable state (table, seat manager, gate) compared; monitors evaluate the property on the implementation's snapshots; "
+           "non-trivial = at least one hand opened; distinct = distinct trace texts (FNV-64)")
+
+def tb_modes(nq=60, nt=1500, ns=400):
+    return {
+        "quick": [{"mode": "table", "args": ["-n", nq, "-hands", 8], "timeout": 900}],
+        "thorough": [{"mode": "table", "args": ["-n", nt, "-hands", 10, "-workers", 16], "timeout": 3000}],
+        "search": [{"mode": "table", "args": ["-n", ns, "-hands", 8, "-workers", 16], "timeout": 1500}],
+    }
+
+TB_ASSUME = ["the hand engine is a parameter of the TB model: each settlement carries the result the backend produced; contract ResultConserves (zero-sum, one entry per participant) is monitored on every real result",
+             "asynchronous happenings (gate fire, hand close, continue tick, auto-join completion) are explicit events placed where the harness observed them; the 17 s auto-join timer and the 2 s gate timer are not modelled as clocks",
+             "randomness (random seats, first big-blind seat) enters as recorded choices checked for legality"]
+
+def tb_prop(classes, extra_tb=None):
+    return {"layers": ["tb"], "classes": classes, "modes": tb_modes(), "rule": TB_RULE,
+            "trusted_base": TB_COMMON + (extra_tb or []), "assumptions": TB_ASSUME, "extra_obligations": []}
+
 PROPS = {
+    "C01": tb_prop(["C01."]),
+    "C02": tb_prop(["C02."]),
+    "C03": {**tb_prop(["C03."]), "layers": ["tb", "sm"],
+            "modes": {"quick": tb_modes()["quick"] + [{"mode": "sm", "args": ["-n", 2000]}],
+                      "thorough": tb_modes()["thorough"] + [{"mode": "sm", "args": ["-n", 100000, "-enum", 4, "-enumseats", 3]}],
+                      "search": tb_modes()["search"] + [{"mode": "sm", "args": ["-n", 40000]}]}},
+    "C05": tb_prop(["C05."]),
+    "C06": tb_prop(["C06."]),
+    "C07": tb_prop(["C07."]),
+    "C08": tb_prop(["C08."]),
+    "C12": tb_prop(["C12."]),
     "C04": {
         "layers": ["sm"],
         "classes": ["C04."],
@@ -26,5 +58,11 @@ PROPS = {
         "trusted_base": TB_COMMON + ["Go map-iteration order only influences which error a multi-problem AssignSeats batch reports (model returns the set)"],
         "assumptions": ["randomness of the seat manager (shuffled seats, first big-blind seat) enters the model as a recorded choice, checked for legality"],
         "extra_obligations": [],
+    },
+    "C17": {
+        "layers": ["mg"], "classes": ["C17."],
+        "modes": {"quick": [], "thorough": [], "search": []},
+        "rule": "proof-only so far: the forwarding discipline is decided over the regenerated manager table; the twin-table differential is not built yet",
+        "trusted_base": TB_COMMON, "assumptions": ["the extractor recognises the manager's method bodies (fails closed on any other shape)"], "extra_obligations": [],
     },
 }
